@@ -72,6 +72,15 @@ pub fn roundtrip_ex(lang_code: &str, words: &[String], digits: &str, value: f64,
     if oc.start != np || oc.end != np + nw {
         return Err(format!("{:?}: the occurrence spans tokens [{}, {}), the spelled number is tokens [{}, {})", text, oc.start, oc.end, np, np + nw));
     }
+    // a numeral of two or more characters that is not an ordinal is rewritten at every threshold (C09 d)
+    if !ord && digits.chars().count() >= 2 {
+        for th in [10.0, f64::INFINITY] {
+            let o2 = replace_numbers_in_text(&text, lg, th);
+            if o2 != expect {
+                return Err(format!("rewrite of {:?} at threshold {} = {:?}, expected {:?}", text, th, o2, expect));
+            }
+        }
+    }
     if oc.text != digits || oc.ord != ord || oc.value().to_bits() != value.to_bits() {
         return Err(format!("{:?}: occurrence {:?} (value {}), expected text {:?} value {} is_ordinal={}", text, oc, oc.value(), digits, value, ord));
     }
